@@ -316,8 +316,99 @@ def icdf_task(c):
     return out
 
 
+# ---- marginal_icdf along a history: query, change the model, query again -------------------
+
+def _p3(x, a=0.1, b=1.489, c=0.1901):
+    return a + b * x ** c
+
+
+def _e3(x, a=0.04, b=0.1748, c=-0.2243):
+    return a + b * np.exp(c * x)
+
+
+def _seastate_model(vc):
+    """Hs-Tz structure of the predefined DNVGL model (fit-capable dependence functions)"""
+    bounds = [(0, None), (0, None), (None, None)]
+    return vc.GlobalHierarchicalModel([
+        {"distribution": vc.WeibullDistribution(alpha=2.776, beta=1.471, f_gamma=0.0)},
+        {"distribution": vc.LogNormalDistribution(), "conditional_on": 0,
+         "parameters": {"mu": vc.DependenceFunction(_p3, bounds), "sigma": vc.DependenceFunction(_e3, bounds)}}])
+
+
+def _change_parameters(model):
+    """edit the parameters in place: parent scale x1.6, first coefficient of every dependence
+    function of the conditional dimensions x1.25 (all stay admissible)"""
+    d0 = model.distributions[0]
+    fam = model._verif["dims"][0]["family"]
+    if fam in ("weibull", "expweibull"):
+        d0.alpha = d0.alpha * 1.6
+    elif fam == "lognormal":
+        d0.mu = d0.mu + 0.47
+    elif fam == "gengamma":
+        d0.lambda_ = d0.lambda_ / 1.6
+    elif fam == "lognormfit":
+        d0.mu_norm, d0.sigma_norm = d0.mu_norm * 1.6, d0.sigma_norm * 1.6
+    for i in range(1, model.n_dim):
+        if model.conditional_on[i] is None:
+            continue
+        for dep in model.distributions[i].conditional_parameters.values():
+            pars = dict(dep.parameters)
+            k0 = next(iter(pars))
+            pars[k0] = pars[k0] * 1.25
+            dep.parameters = pars
+
+
+def icdf_history_task(c):
+    """marginal_cdf(marginal_icdf(p)) = p must hold for the CURRENT parameters after every change
+    of the model object (parameters edited in place, or the model re-fitted to other data)."""
+    vc = import_virocon()
+    dim, ps = c["dim"], c["ps"]
+    out = []
+    if c["how"] == "refit":
+        truth = _seastate_model(vc)
+        data_a = truth.draw_sample(20000, random_state=c["seed"])
+        data_b = truth.draw_sample(20000, random_state=c["seed"] + 1) * np.array([0.5, 1.6])
+        model = _seastate_model(vc)
+        with warnings.catch_warnings():
+            warnings.simplefilter("ignore")
+            model.fit(data_a)
+        name = "named=seastate-weibull-lognormal"
+    else:
+        model = get_model(c)
+        name = model_key(c)
+    conditional = model.conditional_on[dim] is not None
+    p_small = min(min(ps), 1 - max(ps))
+    n = max(int((1 / p_small) * 100), 100000) if conditional else 0
+    radius9 = int(1e9 * math.sqrt(28.324 / (2 * max(n, 1)))) if n else 1000
+    x_prev = None
+    for phase in ("first-query", "after-" + c["how"]):
+        if phase != "first-query":
+            with warnings.catch_warnings():
+                warnings.simplefilter("ignore")
+                if c["how"] == "refit":
+                    model.fit(data_b)
+                else:
+                    _change_parameters(model)
+        pc = Pieces(model)                      # reads the model's current distributions
+        np.random.seed((c["seed"] + len(phase)) % (2**32 - 1))
+        with warnings.catch_warnings():
+            warnings.simplefilter("ignore")
+            xs = np.asarray(model.marginal_icdf(ps, dim), dtype=float).reshape(-1)
+        for k, (p, xv) in enumerate(zip(ps, xs)):
+            F = pc.marginal(dim, float(xv), True)
+            moved = True
+            if x_prev is not None:      # non-trivial: the old quantile is no longer the p-quantile
+                moved = abs(pc.marginal(dim, float(x_prev[k]), True) - p) * 1e9 > 3 * radius9
+            rec = dict(kind="icdf", p=Q(p, 1e9), F=Qc(F, 1e9, -BIG, BIG), n=n)
+            out.append(dict(rec=rec, key=f"marginal_icdf history={phase} dim={dim} p={p} {name}",
+                            nontrivial=conditional and moved, case=c, history=phase))
+        x_prev = xs
+    return out
+
+
 def run_task(c):
-    return {"pdf": pdf_task, "integral": integral_task, "icdf": icdf_task}[c["task"]](c)
+    return {"pdf": pdf_task, "integral": integral_task, "icdf": icdf_task,
+            "icdf_history": icdf_history_task}[c["task"]](c)
 
 
 # ---- case selection ------------------------------------------------------------------------
@@ -350,7 +441,7 @@ def make_tasks(ctx, cfgs):
     cond2 = [c for c in by_n[2] if c["cond"][1] == 0 and c["sh"][1] != 1]
     ind2 = [c for c in by_n[2] if c["cond"][1] is None]
     lv2 = [[0.5, 0.5], [0.9, 0.2], [0.3, 0.95], [0.999, 0.99], [0.05, 0.6]]
-    n2 = ctx.pick(8, 20)
+    n2 = ctx.pick(5, 20)
     for k in range(n2):
         cfg = cond2[(k + ctx.seed) % len(cond2)] if k % 4 != 3 else ind2[k % len(ind2)]
         b = base(cfg, smooth=True)
@@ -366,13 +457,14 @@ def make_tasks(ctx, cfgs):
         slow.append(dict(b, task="integral", what="marginal_pdf", dim=0, levels=lv))
         if k % 2 == 0:
             slow.append(dict(b, task="integral", what="cdf", levels=lv, isint=True))
+        if k % 2 == 0 and (k == 0 or not ctx.quick):      # far-corner integrals are the slowest 2-D calls
             slow.append(dict(b, task="integral", what="mass", dim=1, levels=lv))
             slow.append(dict(b, task="integral", what="mass", dim=None, levels=lv))
         slow.append(dict(b, task="icdf", dim=1, ps=[0.01, 0.5, 0.9, 0.999], with_model_cdf=(k % 3 == 0)))
         slow.append(dict(b, task="icdf", dim=0, ps=[0.01, 0.5, 0.999]))
     # 3-D: marginal_pdf of dimension 1 uses the argument order [2, 0, 1] (not its own inverse)
     c3 = [c for c in by_n[3] if c["cond"][1] == 0 and c["cond"][2] is not None and 1 not in c["sh"][1:]]
-    n3 = ctx.pick(4, 10)
+    n3 = ctx.pick(2, 10)
     for k in range(n3):
         cfg = c3[(k * 7 + ctx.seed) % len(c3)]
         b = base(cfg, smooth=True)
@@ -385,6 +477,14 @@ def make_tasks(ctx, cfgs):
             if k < 2:      # three nested levels of nquad: many minutes each, started first
                 slow.append(dict(b, task="integral", what="marginal_cdf", dim=1, levels=lv, heavy=True))
                 slow.append(dict(b, task="integral", what="cdf", levels=lv, heavy=True))
+    # histories: query marginal_icdf, change the model object, query again
+    for k in range(ctx.pick(4, 16)):
+        cfg = cond2[(k * 5 + ctx.seed) % len(cond2)]
+        slow.append(dict(base(cfg, smooth=True), task="icdf_history", how="parameter-change", dim=1,
+                         ps=[0.05, 0.5, 0.95]))
+    for k in range(ctx.pick(1, 3)):
+        slow.append(dict(task="icdf_history", how="refit", dim=1, ps=[0.25, 0.5, 0.75], n_dim=2, cond=[None, 0],
+                         sh=[0, 4], families=["weibull", "lognormal"], seed=ctx.seed + 11 + k))
     # named deterministic cases (stable keys)
     nb = dict(n_dim=2, cond=[None, 0], sh=[0, 2], families=["lognormal", "lognormal"], seed=0, smooth=False,
               named="narrow-conditioning-variable")
@@ -395,12 +495,13 @@ def make_tasks(ctx, cfgs):
     if not ctx.quick:       # one call of ~60 s
         slow.append(dict(nb3, task="integral", what="marginal_pdf", dim=2, levels=[0.8, 0.3, 0.7], heavy=True))
     # longest calls first (measured: far-corner mass 15-65 s, 3-D marginals 10-25 s, 2-D cdf 10-30 s)
-    cost = {"mass": 0, "cdf": 2, "marginal_cdf": 3, "marginal_pdf": 5}
+    cost = {"mass": 0, "cdf": 2, "marginal_cdf": 3, "marginal_pdf": 5, None: 6}
     slow.sort(key=lambda t: (-1 if t.get("heavy") else 1 if t["n_dim"] == 3 else cost.get(t.get("what"), 4)))
     # ... but one call of every kind goes first, so that a loaded machine cannot make a kind vacuous
     first, seen = [], set()
     for t in sorted(slow, key=lambda t: -cost.get(t.get("what"), 4)):
-        k = (t["task"], t.get("what"), bool(t.get("isint")), t["n_dim"], t.get("dim") if t["n_dim"] == 3 else 0)
+        k = (t["task"], t.get("what"), t.get("how"), bool(t.get("isint")), t["n_dim"],
+             t.get("dim") if t["n_dim"] == 3 else 0)
         if k not in seen:
             seen.add(k)
             first.append(t)
@@ -483,7 +584,9 @@ def run(ctx):
                 "(2-D x4/x12, 3-D x1/x3), 9/30 points "
                 "per model (bulk, tails, below support, integer-valued) in 8 input kinds; integrals: conditional 2-D "
                 "models (and independent ones) at 2-4 probability-level points, 3-D marginal_pdf of dimensions 1 "
-                "and 2 (thorough also two 3-D cdf / marginal_cdf calls); distinct = distinct (call, point, model); "
+                "and 2 (thorough also two 3-D cdf / marginal_cdf calls); marginal_icdf histories (query, edit parameters in place or "
+                "re-fit, query again) judged against the reference marginal cdf of the CURRENT parameters; "
+                "distinct = distinct (call, point, model); "
                 "non-trivial = reference value > 0 (pdf: and a dependence that varies with the given)")
     ctx.trusted = ["TLC evaluating spec/Trace_C06.tla", "scipy.integrate.quad as reference quadrature over the "
                    "model's own conditional pdf/cdf (break points at quantiles, epsrel 1e-11)",
@@ -493,7 +596,8 @@ def run(ctx):
                        "the given; the regime outside (mass narrow relative to its distance from 0, where "
                        "integration over (0, inf) loses it) is covered by the named cases of c06.NAMED",
                        "model.cdf integrates from 0: non-negative families only",
-                       "integral calls that do not finish within the wall-clock budget are dropped (count in notes)"]
+                       "integral calls that do not finish within the wall-clock budget (6x the unloaded time) are "
+                       "dropped and counted in notes; what finished is judged; machinery failure only if none finished"]
     ctx.model_check("Rosenblatt", ctx.pick("MC_Rosenblatt_c06_quick.cfg", "MC_Rosenblatt_c06_thorough.cfg"),
                     must_cover=("PdfStep",), timeout=3000)
     ctx.model_check("Rosenblatt", "MC_Rosenblatt_c06_wrongcol.cfg", expect_violation="Factorises")
@@ -505,22 +609,32 @@ def run(ctx):
     res_pdf = M.pmap(run_task, pdf_tasks, workers=ctx.pick(4, 8))
     ctx.log(f"pdf: {len(pdf_tasks)} models evaluated in {time.time() - t0:.1f}s")
     t0 = time.time()
-    res_slow = M.pmap_deadline(run_task, slow, workers=ctx.pick(12, 14), deadline_s=ctx.pick(85, 960))
+    res_slow = M.pmap_deadline(run_task, slow, workers=ctx.pick(12, 14), deadline_s=ctx.pick(300, 2700))
     dropped = sum(1 for r in res_slow if r is None)
     ctx.log(f"integrals: {len(slow)} calls, {dropped} not finished within the budget, {time.time() - t0:.1f}s")
     recs, meta, failing = judge(ctx, list(res_pdf) + [r for r in res_slow if r is not None], "pdf + integrals")
     ctx.sample({"case": meta[0]["case"], "record": {**recs[0], "kinds": recs[0].get("kinds", [])[:2]}})
     if ctx.violations:
         return          # report them; the vacuity guards below would only mask the finding
-    if dropped > len(slow) // 2:
-        raise Machinery(f"{dropped} of {len(slow)} integral calls did not finish in time")
     kinds = {}
-    for r in recs:
+    for r, o in zip(recs, meta):
         k = r["kind"] if r["kind"] != "integral" else r["what"] + ("/int" if r["isint"] else "")
+        if o.get("history"):
+            k = "icdf/" + o["history"]
         kinds[k] = kinds.get(k, 0) + 1
-    for need in ("pdf", "cdf", "marginal_pdf", "marginal_cdf", "mass", "icdf", "marginal_pdf/int"):
-        if not kinds.get(need):
-            raise Machinery(f"vacuous: no '{need}' record was produced")
+    ctx.notes["records_by_kind"] = kinds
+    ctx.notes["integral_calls_dropped_for_time"] = dropped
+    # a slow machine is not a verdict: whatever finished was judged; the run only fails as machinery
+    # if NOTHING finished.  Kinds that are missing because of dropped calls are recorded.
+    if dropped == len(slow):
+        raise Machinery(f"none of the {len(slow)} integral calls finished within the budget")
+    missing = [k for k in ("pdf", "cdf", "marginal_pdf", "marginal_cdf", "mass", "icdf", "marginal_pdf/int",
+                           "icdf/after-parameter-change", "icdf/after-refit") if not kinds.get(k)]
+    ctx.notes["kinds_without_a_record"] = missing
+    if missing and dropped == 0:
+        raise Machinery(f"vacuous: no record of kind {missing} although no call was dropped")
+    if missing:
+        ctx.log(f"machine slow: {dropped} calls dropped, no record of kind {missing} in this run")
     selftest(ctx, recs, failing)
     ctx.sample({"case": meta[0]["case"], "record": {**recs[0], "kinds": recs[0]["kinds"][:2]}})
     for pred in (lambda r: r["kind"] == "integral", lambda r: r["kind"] == "icdf" and r["n"] > 0):
@@ -528,9 +642,8 @@ def run(ctx):
         if i is not None:
             ctx.sample({"case": meta[i]["case"], "record": recs[i]})
     ctx.exhaustive = False
-    ctx.notes["records_by_kind"] = kinds
-    ctx.notes["integral_calls_dropped_for_time"] = dropped
-    ctx.notes["slowest_integral_calls_s"] = sorted((o.get("secs", 0) for o in meta), reverse=True)[:5]
+    ctx.notes["slowest_integral_calls_s"] = sorted(((o.get("secs", 0), o["key"].split(" levels")[0]) for o in meta
+                                                    if "secs" in o), reverse=True)[:5]
 
 
 def replay(ctx, case):
